@@ -42,25 +42,93 @@ func Date(y int, m Month, d, h, mi, s, ns int, l *Location) Time {
 type Timer struct {
 	C  *vch.Chan[Time]
 	vt *vrt.VTimer
+	f  func()
 }
 
 func AfterFunc(d Duration, f func()) *Timer {
-	return &Timer{vt: vrt.NewTimer(int64(d), f)}
+	return &Timer{vt: vrt.NewTimer(int64(d), f), f: f}
 }
 
 func NewTimer(d Duration) *Timer {
 	c := vch.Make[Time](1)
 	t := &Timer{C: c}
-	t.vt = vrt.NewTimer(int64(d), func() {
+	t.f = func() {
 		vch.Select(true, vch.Send(c, Now()))
-	})
+	}
+	t.vt = vrt.NewTimer(int64(d), t.f)
 	return t
+}
+
+// Reset re-arms the timer (a new timer thread with the same action); it reports whether the timer had been active.
+func (t *Timer) Reset(d Duration) bool {
+	was := t.vt.Stop()
+	t.vt = vrt.NewTimer(int64(d), t.f)
+	return was
 }
 
 func After(d Duration) *vch.Chan[Time] { return NewTimer(d).C }
 
 func (t *Timer) Stop() bool { return t.vt.Stop() }
 
+// Sleep waits for a timer of the given duration (racy below 100 ms, manual above - like every other timer).
 func Sleep(d Duration) {
-	<-make(chan struct{}) // unsupported in controlled mode
+	NewTimer(d).C.Recv()
 }
+
+// Ticker: every tick re-arms the next one; at most MaxTicks ticks per ticker, so that code polling on a short ticker
+// still reaches quiescence (an explicit horizon; the tree as it stands uses no ticker).
+const MaxTicks = 8
+
+type Ticker struct {
+	C       *vch.Chan[Time]
+	d       Duration
+	vt      *vrt.VTimer
+	stopped bool
+	stopCh  *vch.Chan[struct{}]
+	n       int
+}
+
+func NewTicker(d Duration) *Ticker {
+	if d <= 0 {
+		panic("non-positive interval for NewTicker")
+	}
+	t := &Ticker{C: vch.Make[Time](1), d: d, stopCh: vch.Make[struct{}]()}
+	t.arm()
+	return t
+}
+
+// a tick is delivered as soon as the consumer has taken the previous one (a real ticker drops ticks meanwhile and
+// keeps ticking; what the consumer sees is the same: a tick is there whenever it looks, at most MaxTicks times)
+func (t *Ticker) arm() {
+	stop := t.stopCh
+	t.vt = vrt.NewTimer(int64(t.d), func() {
+		if t.stopped {
+			return
+		}
+		if vch.Select(false, vch.Send(t.C, Now()), vch.Recv(stop)) != 0 {
+			return
+		}
+		t.n++
+		if t.n < MaxTicks && !t.stopped {
+			t.arm()
+		}
+	})
+}
+
+func (t *Ticker) Stop() {
+	if !t.stopped {
+		t.stopped = true
+		t.stopCh.Close()
+	}
+	t.vt.Stop()
+}
+
+func (t *Ticker) Reset(d Duration) {
+	t.Stop()
+	t.d = d
+	t.stopped = false
+	t.stopCh = vch.Make[struct{}]()
+	t.arm()
+}
+
+func Tick(d Duration) *vch.Chan[Time] { return NewTicker(d).C }
